@@ -1033,7 +1033,7 @@ def check(ctx):
                    "C08": "all valid redirection triples, with 0 or 3 other live Popens holding pipes; the child's whole descriptor table at exec",
                    "C15": "PATH shapes (good/missing/non-executable/directory/empty/duplicate/very long entries, only-empty values, unset), names with slash, explicit executable, name lengths 1..255, random shapes",
                    "C17": "name lengths 4/100/255 x PATH shapes (longest entry first/last/only, 41 entries, only-empty), cwd lengths 10..3000, large argv/env, failing child steps",
-                   "C18": "signal masks of the spawning thread (none, SIGPIPE, SIGTERM, SIGCHLD, all, real-time, random subsets) x parent SIGPIPE ignored/default",
+                   "C18": "signal masks of the spawning thread (none, SIGPIPE, SIGTERM, SIGCHLD, all, real-time, random subsets) x parent SIGPIPE ignored/default; launch histories in processes of their own whose first launch sees the other disposition / a non-empty mask",
                    }[prop] + "; non-trivial = at least 6 logged system calls; distinct by specification"
     cov["samples"] = [{"spec": c["spec"], "result": " ".join(c["res"]), "log_head": c["log"][:12]} for c in cases[:2] + cases[-1:]]
     if prop == "C08" and not ctx.replay:
